@@ -609,6 +609,11 @@ type vRun struct {
 	heldIdx int
 	heldCh  chan struct{}
 	readers int // readers per accepted stream
+	// teardown: one accepted stream per side is NOT read while the run lasts: a long read deadline is armed on it, the reader
+	// comes back only after the teardown AND after that deadline has expired (idleGo), sets a new deadline and reads
+	idleSide [2]bool
+	idleGo   chan struct{}
+	idleWG   sync.WaitGroup
 }
 
 // assoc / setAssoc: the association of a side is stored by the goroutine that runs the constructor and read by the
@@ -688,6 +693,8 @@ func vErrClass(err error) string {
 		return "deadline"
 	case errors.Is(err, ErrShutdownNonEstablished):
 		return "shutdown-nonestablished"
+	case strings.Contains(err.Error(), "before the shutdown sequence completed"): // ErrShutdownIncomplete (by text: the harness must also build against a tree without it)
+		return "shutdown-incomplete"
 	case errors.Is(err, ErrAssociationClosedBeforeConn):
 		return "closed-before-conn"
 	case errors.Is(err, ErrHandshakeInitAck), errors.Is(err, ErrHandshakeCookieEcho):
@@ -959,6 +966,53 @@ func (r *vRun) reader(side int, s *Stream, wg *sync.WaitGroup, bufSize int) {
 	}
 }
 
+// vCCIdleReader: a read deadline is armed while NO read is blocked; the association goes down; the deadline expires only
+// after that; then the application sets a new deadline (or none) and reads: it must get the data that had arrived and then,
+// promptly, the TERMINAL error of the stream (close error / EOF / the peer's abort cause) - an expiry that comes late must
+// not replace it.
+func (r *vRun) vCCIdleReader(side int, s *Stream, bufSize int) {
+	defer r.idleWG.Done()
+	sid := s.StreamIdentifier()
+	dl := time.Now().Add(time.Hour)
+	_ = s.SetReadDeadline(dl)
+	r.logf("e2e idlearm %d %d", side, sid)
+	<-r.idleGo
+	if d := time.Until(dl); d > 0 {
+		time.Sleep(d + time.Second) // the helper goroutine of the deadline has fired by now
+	}
+	ir := &vrand{s: uint64(r.sc.seed)*271 + uint64(r.sc.idx)*29 + uint64(side)}
+	buf := make([]byte, bufSize)
+	t0 := time.Now()
+	for k := 0; ; k++ {
+		if ir.chance(50) {
+			_ = s.SetReadDeadline(time.Time{})
+		} else {
+			_ = s.SetReadDeadline(time.Now().Add(5 * time.Second))
+		}
+		n, ppi, err := s.ReadSCTP(buf)
+		switch {
+		case err == nil:
+			r.logf("e2e r %d %d %d %d %d", side, sid, uint32(ppi), n, vHash(buf[:n]))
+		case errors.Is(err, io.ErrShortBuffer):
+			buf = make([]byte, len(buf)*2+1)
+		case errors.Is(err, ErrReadDeadlineExceeded) && k < 3:
+			// the old deadline's expiry may still be pending as the stream's (transient) error once; after that a
+			// deadline error means the terminal error is gone
+			r.logf("e2e rerr %d %d -> deadline", side, sid)
+		default:
+			cls := vErrClass(err)
+			if errors.Is(err, ErrReadDeadlineExceeded) {
+				// the stream's own sentinel, still there after three fresh deadlines: the terminal error is gone. (After a
+				// local Abort() the terminal error itself is the TRANSPORT's deadline error, class "deadline": that is fine.)
+				cls = "read-deadline-exceeded"
+			}
+			r.logf("e2e idleread %d %d -> %s %d", side, sid, cls, time.Since(t0).Milliseconds())
+			r.logf("e2e rerr %d %d -> %s", side, sid, vErrClass(err))
+			return
+		}
+	}
+}
+
 // acceptor accepts streams on `side` and starts a reader for each.
 func (r *vRun) acceptor(side int, wg *sync.WaitGroup, bufSize int) {
 	defer wg.Done()
@@ -975,6 +1029,15 @@ func (r *vRun) acceptor(side int, wg *sync.WaitGroup, bufSize int) {
 		r.logf("e2e accept %d %d", side, s.StreamIdentifier())
 		if r.sc.readerPauseMs > 0 {
 			time.Sleep(time.Duration(r.sc.readerPauseMs) * time.Millisecond)
+		}
+		r.mu.Lock()
+		idle := r.idleSide[side]
+		r.idleSide[side] = false
+		r.mu.Unlock()
+		if idle {
+			r.idleWG.Add(1)
+			go r.vCCIdleReader(side, s, bufSize)
+			continue
 		}
 		nr := 1
 		if r.readers > 1 {
@@ -1221,7 +1284,7 @@ func vRunScenario(t *testing.T, l *vlog, sc *vScenario) {
 	defer func() { globalMathRandomGenerator = old }()
 	defer vWatchdog(sc, l, time.Duration(vEnvInt("VERIF_WATCHDOG_S", 60))*time.Second)()
 	synctest.Test(t, func(t *testing.T) {
-		run := &vRun{t: t, l: l, sc: sc, readers: sc.readers, heldCh: make(chan struct{})}
+		run := &vRun{t: t, l: l, sc: sc, readers: sc.readers, heldCh: make(chan struct{}), idleGo: make(chan struct{})}
 		// Uint32 call order in the constructors: myVerificationTag then TSN for each association;
 		// both associations draw from the same source, so give every early draw a chosen value.
 		globalMathRandomGenerator = &vRandGen{r: &vrand{s: uint64(sc.seed) + 99}, tsns: nil}
